@@ -120,6 +120,14 @@ def obligations(tier, seed):
                                     "timeout": 900 if thorough else 150, "engine": "zsym"})
     for ob in [o for o in obs if o["name"].startswith("equiv/k=FS/") and "/rule=0/" in o["name"]]:
         obs.append(dict(ob, name=ob["name"].replace("equiv/", "equiv-backward/"), cube=dict(ob["cube"], backward=True)))
+    # the automatic task as a predecessor (its SS / FS successor must not start earlier because of an absence step)
+    for k in (0, 1):
+        for layout in ("private", "shared1"):
+            spec = {"tasks": [{"w": "$w0"}, {"w": "$w1", "auto": True}, {"w": "$w2"}], "edges": [[0, 1, 0], [1, 2, k]],
+                    "teams": profiles.layout_workers(layout, 3), "run": {"max_time": 16, "abs": ["$pa0", "$pa1"], "flag": False, "rule": 0}}
+            obs.append({"name": "equiv/auto-pred/k=%s/%s" % (profiles.KN[k], layout), "harness": "equiv", "cube": {"spec": spec},
+                        "params": [["w0", 0, 2], ["w1", 1, 3], ["w2", 0, 2], ["pa0", 0, 5], ["pa1", 0, 8]], "pre": "pa0 < pa1",
+                        "timeout": 900 if thorough else 150, "engine": "zsym"})
     # a task that several workers can share, competing with a chain for a worker who is eligible for both
     for rule in ((0, 4) if not thorough else range(9)):
         spec = {"tasks": [{"w": "$w0"}, {"w": "$w1"}, {"w": "$w2"}], "edges": [[0, 2, 0]],
